@@ -341,6 +341,14 @@ func (cc *grpcClientConn) Receive(msg any) error {
 		// already extracted the error.
 		return err
 	}
+	if !cc.unmarshaler.web && !errors.Is(err, io.EOF) {
+		// The message couldn't be read or decoded, but the stream hasn't ended:
+		// HTTP trailers only become available once the body has been read to
+		// the end, and the server may well be waiting for us before it finishes.
+		// Don't block this call on the rest of the response.
+		cc.duplexCall.SetError(err)
+		return err
+	}
 	// See if the server sent an explicit error in the HTTP or gRPC-Web trailers.
 	mergeHeaders(
 		cc.responseTrailer,
